@@ -669,9 +669,39 @@ func c13round2(c *an.Ctx) {
 					r8.Fail(f.Name+": recording outside the shard loop", c.P.Pos(ce.Pos()), "storeTsids is not called inside the loop over the partition's shards: ids found in the indexes of several retention policies are recorded with one shard, i.e. in one policy's delete set, and stay visible in the others")
 					continue
 				}
+				// what identifies the shard (the shard itself, or its policy name / engine type read
+				// from it) must come from the loop's shard: every shard-typed operand among the
+				// arguments is the loop variable, and at least one is
 				vid, _ := lp.Value.(*ast.Ident)
-				if vid == nil || len(ce.Args) != 4 || types.ExprString(ce.Args[3]) != vid.Name {
-					r8.Fail(f.Name+": recording with another shard", c.P.Pos(ce.Pos()), "storeTsids is handed %s, not the shard whose index was searched", types.ExprString(ce.Args[len(ce.Args)-1]))
+				var loopVar types.Object
+				if vid != nil {
+					loopVar = f.Info.Defs[vid]
+				}
+				uses, other := 0, ""
+				for _, a := range ce.Args {
+					ast.Inspect(a, func(m ast.Node) bool {
+						id, ok := m.(*ast.Ident)
+						if !ok {
+							return true
+						}
+						v, _ := f.Info.Uses[id].(*types.Var)
+						if v == nil || loopVar == nil {
+							return true
+						}
+						if v == loopVar {
+							uses++
+						} else if types.Identical(v.Type(), loopVar.Type()) {
+							other = id.Name
+						}
+						return true
+					})
+				}
+				if loopVar == nil || uses == 0 || other != "" {
+					what := other
+					if what == "" && len(ce.Args) > 0 {
+						what = types.ExprString(ce.Args[len(ce.Args)-1])
+					}
+					r8.Fail(f.Name+": recording with another shard", c.P.Pos(ce.Pos()), "storeTsids is handed %s, not the shard whose index was searched", what)
 				}
 			}
 			if st.Len() > 0 {
